@@ -105,8 +105,8 @@ def render_module(f, classes):
 def content_tree(c):
     if c is None:
         return None
-    return {"name": c.name, "type": c.type if isinstance(c.type, str) else c.type.value,
-            "occur": c.occur if isinstance(c.occur, str) else c.occur.value,
+    return {"name": c.name, "type": c.type if isinstance(c.type, str) else c.type.name,
+            "occur": c.occur if isinstance(c.occur, str) else c.occur.name,
             "left": content_tree(c.left), "right": content_tree(c.right)}
 
 
@@ -124,9 +124,9 @@ def lxml_view(dtd_text):
 def xs_view(dtd):
     out = []
     for el in dtd.elements:
-        out.append({"name": el.name, "prefix": el.prefix, "type": el.type.value, "content": content_tree(el.content),
+        out.append({"name": el.name, "prefix": el.prefix, "type": el.type.name, "content": content_tree(el.content),
                     "qname": el.qname,
-                    "attributes": [{"prefix": a.prefix, "name": a.name, "type": a.type.value, "default": a.default.value,
+                    "attributes": [{"prefix": a.prefix, "name": a.name, "type": a.type.name, "default": a.default.name,
                                     "default_value": a.default_value, "values": list(a.values),
                                     "data_type": str(a.data_type)}
                                    for a in el.attributes],
@@ -243,7 +243,6 @@ def run_program(p):
     raw = list(DtdMapper.map(dtd))
     res["mapped"] = [class_view(c) for c in raw]
     res["docs"] = []
-    res["words"] = []
     res["meta"] = []
     try:
         cfg = GeneratorConfig()
@@ -277,21 +276,19 @@ def run_program(p):
         res["gen"] = {"ok": False, "err": type(e).__name__, "msg": str(e)[:500], "tb": traceback.format_exc()[-1500:]}
         return res
     pcfg = ParserConfig(**STRICT)
+    ns_map = {k: v for k, v in p.get("ns_map") or []} or None
     for doc in p.get("docs", []):
-        res["docs"].append(roundtrip(ctx, pcfg, root_cls, doc))
-    for w in p.get("words", []):
-        r = roundtrip(ctx, pcfg, root_cls, w)
-        res["words"].append("ok" in r)
+        res["docs"].append(roundtrip(ctx, pcfg, root_cls, doc, ns_map))
     return res
 
 
-def roundtrip(ctx, pcfg, root_cls, doc):
+def roundtrip(ctx, pcfg, root_cls, doc, ns_map=None):
     try:
         obj = XmlParser(context=ctx, config=pcfg).from_string(doc, root_cls)
     except Exception as e:
         return {"err": type(e).__name__, "msg": str(e)[:300], "stage": "parse"}
     try:
-        return {"ok": XmlSerializer(context=ctx).render(obj)}
+        return {"ok": XmlSerializer(context=ctx).render(obj, ns_map=dict(ns_map) if ns_map else None)}
     except Exception as e:
         return {"err": type(e).__name__, "msg": str(e)[:300], "stage": "serialize"}
 
